@@ -14,7 +14,9 @@ import (
 
 // dropEvents records, in the order in which they happened on the primary, the emitted commits and
 // the DDL steps, as closures that repeat them on a follower.
-type dropEvents struct{ list []func(*column.Collection) error }
+type dropEvents struct {
+	list []func(*column.Collection) error
+}
 
 func (e *dropEvents) Append(cm commit.Commit) error {
 	cl := cm.Clone()
